@@ -103,6 +103,8 @@ class Facts:
             return self.known[a] == v
         # enum variants: deciding one variant true decides the others false
         self.known[a] = v
+        if self.lin and not self._propagate({a}):
+            return False
         if a[0] == "var" and v == 1:
             for k in range(1, a[3]):
                 if k != a[2]:
@@ -148,8 +150,6 @@ class Facts:
         if lo is not None and lo >= 0:
             return True
         self.lin.append(q)
-        if not self._propagate():
-            return False
         # single-atom bound refinement:  c*x + d >= 0
         if len(q.terms) <= 2 and q.is_linear():
             items = [(m, c) for m, c in q.terms.items() if m != ()]
@@ -169,6 +169,8 @@ class Facts:
                 self.rng[x] = (lo0, hi0)
                 if lo0 is not None and hi0 is not None and lo0 > hi0:
                     return False
+        if not self._propagate(q.atoms()):
+            return False
         return True
 
     def add_conditional(self, guard, q):
@@ -203,12 +205,17 @@ class Facts:
                 f.add_conditional(e[1], e[2])
         return f
 
-    def _propagate(self):
-        """interval propagation over the linear facts: tighten single-atom bounds (few rounds)"""
+    def _propagate(self, seed=None):
+        """interval propagation over the linear facts: tighten single-atom bounds (few rounds).
+        seed: only facts mentioning these atoms (or atoms whose bound moved) are revisited."""
+        active = set(seed) if seed is not None else None
         for _ in range(3):
             changed = False
+            moved = set()
             for f in self.lin:
                 if not f.is_linear():
+                    continue
+                if active is not None and not (f.atoms() & active):
                     continue
                 items = [(m[0], c) for m, c in f.terms.items() if m != ()]
                 if len(items) < 2 or len(items) > 6:
@@ -237,35 +244,135 @@ class Facts:
                             self.rng[x] = (nb, hi0)
                             rngs[x] = (nb, hi0)
                             changed = True
+                            moved.add(x)
                     else:
                         nb = tot // (-c)          # x <= floor(tot/(-c))
                         if hi0 is None or nb < hi0:
                             self.rng[x] = (lo0, nb)
                             rngs[x] = (lo0, nb)
                             changed = True
+                            moved.add(x)
                     lo1, hi1 = rngs[x]
                     if lo1 is not None and hi1 is not None and lo1 > hi1:
                         return False
             if not changed:
                 break
+            if active is not None:
+                active = moved
         return True
 
     # ------------------------------------------------------------ entailment
-    def entails_ge0(self, p, max_facts=3, max_coeff=3):
+    def has_fact(self, guard, q):
+        """syntactic hit: q >= 0 is literally among the path facts (or the conditional facts, under guard)"""
+        ck = (len(self.lin), len(self.cond), len(self.known))
+        c = getattr(self, "_idx", None)
+        if c is None or c[0] != ck:
+            c = (ck, {f.key() for f in self.lin}, {(g.key(), f.key()) for g, f in self.cond})
+            self._idx = c
+        k = q.key()
+        if k in c[1]:
+            return True
+        return guard is not None and (guard.key(), k) in c[2]
+
+    def eq_elimination(self):
+        """Gaussian elimination over the equalities among the path facts (q >= 0 and -q >= 0 both
+        present, q linear with a unit-coefficient atom): -> (ordered [(atom, Poly)], remaining facts
+        rewritten). Every path fact and the goal are rewritten by the same substitution, so the
+        entailment question is unchanged; it only lets a constant-multiplier combination finish
+        proofs that need an equality multiplied by a polynomial."""
+        ck = (len(self.lin), len(self.known))
+        c = getattr(self, "_eqc", None)
+        if c is not None and c[0] == ck:
+            return c[1], c[2]
+        keys = {}
+        for f in self.lin:
+            keys.setdefault(f.key(), f)
+        subs = []
+        used = set()
+        for k, f in list(keys.items()):
+            if k in used or not f.is_linear():
+                continue
+            nk = (-f).key()
+            if nk not in keys:
+                continue
+            used.add(k)
+            used.add(nk)
+            e = f
+            for (a, ex) in subs:
+                e = e.subst({a: ex})
+            if e.const_value() is not None or not e.is_linear():
+                continue
+            cands = sorted([(m[0], c) for m, c in e.terms.items() if m != () and abs(c) == 1 and not is_bool_atom(m[0])], key=lambda mc: repr(mc[0]))
+            if not cands:
+                continue
+            x, cx = cands[-1]
+            # cx*x + rest == 0  ->  x = -rest/cx
+            rest = e - Poly({(x,): cx})
+            ex = -rest if cx == 1 else rest
+            subs = [(a, v.subst({x: ex})) for a, v in subs]
+            subs.append((x, ex))
+        rest_lin = []
+        seen = set()
+        m = dict(subs)
+        for k, f in keys.items():
+            if k in used:
+                continue
+            g = f.subst(m)
+            if g.const_value() is not None:
+                continue
+            gk = g.key()
+            if gk not in seen:
+                seen.add(gk)
+                rest_lin.append(g)
+        self._eqc = (ck, m, rest_lin)
+        return m, rest_lin
+
+    def entails_ge0(self, p, max_facts=3, max_coeff=3, use_eq=False, quick_refute=False):
         """is p >= 0 implied?  interval arithmetic, then a bounded Farkas combination of the
         linear path facts (at most max_facts facts, multipliers 1..max_coeff)."""
         p = self.simplify(p)
-        lo, _ = p.range(self)
+        lo, hi = p.range(self)
         if lo is not None and lo >= 0:
             return ("range",)
+        if hi is not None and hi < 0:
+            return None
+        if use_eq:
+            m, lin = self.eq_elimination()
+            if m:
+                p = p.subst(m)
+                lo, _ = p.range(self)
+                if lo is not None and lo >= 0:
+                    return ("range-eq",)
+            else:
+                lin = None
+        else:
+            lin = None
         patoms = p.atoms()
-        direct = [f for f in self.lin if f.atoms() & patoms]
+        if lin is None:
+            seen = set()
+            lin = []
+            for f in self.lin:
+                k = f.key()
+                if k not in seen:
+                    seen.add(k)
+                    lin.append(f)
+        direct = [f for f in lin if f.atoms() & patoms]
         more = set()
         for f in direct:
             more |= f.atoms()
-        indirect = [f for f in self.lin if not (f.atoms() & patoms) and (f.atoms() & more)]
-        direct.sort(key=lambda f: -len(f.atoms() & patoms))
+        indirect = [f for f in lin if not (f.atoms() & patoms) and (f.atoms() & more)]
+        direct.sort(key=lambda f: (-len(f.atoms() & patoms), len(f.terms)))
         pool = direct + indirect
+        if quick_refute:
+            # (Houdini candidates only: giving up early merely loses a candidate.) A monomial that pulls the goal far
+            # below zero must be cancelled by a fact carrying it with the same sign; if no fact does, stop searching.
+            for m_, c_ in p.terms.items():
+                if m_ == ():
+                    continue
+                lo_m, _hi = Poly({m_: c_}).range(self)
+                if lo_m is None or lo_m <= -2:
+                    if not any(f.terms.get(m_, 0) * c_ > 0 for f in pool):
+                        return None
         limits = {1: 40, 2: 14, 3: 9}
         for k in range(1, max_facts + 1):
             cands = pool[:limits.get(k, 8)]
